@@ -238,3 +238,6 @@ for _r in range(1, len(LEVELS["fe1"]) + 1):
         _featurizer_unit("two_effects.first_effect_levels_" + "".join(_sub), ["fe1", "fe2"], None, ["baseline_normalized_margin", "f1"], present=_sub)
 _featurizer_unit("no_effects", [], None, ["f1", "baseline_normalized_margin"])
 _featurizer_unit("separate_states", [], None, ["f1"], states=("AA", "BB"))
+# the bootstrap estimator's use: per-state copies of the baseline margin term must sort with the margin terms (the solver is
+# told not to regularise the first 1 + #states columns), ahead of the other covariates and their copies
+_featurizer_unit("separate_states.with_the_margin_term", [], None, ["baseline_normalized_margin", "f1"], states=("AA",))
